@@ -35,7 +35,10 @@ func NamedOf(t types.Type) *types.Named {
 // TypeIs reports whether t (through pointers) is the named type pkgSuffix.name.
 func TypeIs(t types.Type, pkgSuffix, name string) bool {
 	n := NamedOf(t)
-	if n == nil || n.Obj() == nil || n.Obj().Name() != name {
+	if n == nil || n.Obj() == nil {
+		return false
+	}
+	if n.Obj().Name() != name && (n.Obj().Pkg() == nil || PinnedTypeName(n.Obj().Pkg(), n.Obj().Name()) != name) {
 		return false
 	}
 	if n.Obj().Pkg() == nil {
@@ -86,7 +89,7 @@ func FieldPath(v ssa.Value) (string, bool) {
 		if f == nil {
 			break
 		}
-		parts = append([]string{f.Name()}, parts...)
+		parts = append([]string{FieldName(f)}, parts...)
 		v = base
 	}
 	if len(parts) == 0 {
@@ -277,7 +280,7 @@ func FuncIs(f *ssa.Function, pkgPath, name string) bool {
 			return false
 		}
 		n := NamedOf(sig.Recv().Type())
-		return n != nil && n.Obj().Name() == name[:i] && NameOf(f) == name[i+1:]
+		return n != nil && PinnedTypeName(n.Obj().Pkg(), n.Obj().Name()) == name[:i] && NameOf(f) == name[i+1:]
 	}
 	return sig.Recv() == nil && NameOf(f) == name
 }
@@ -488,7 +491,7 @@ func StructLit(v ssa.Value) (map[string]ssa.Value, bool) {
 		}
 		for _, r2 := range *fa.Referrers() {
 			if st, ok := r2.(*ssa.Store); ok && st.Addr == ssa.Value(fa) {
-				out[FieldOf(fa).Name()] = st.Val
+				out[FieldName(FieldOf(fa))] = st.Val
 			}
 		}
 	}
@@ -877,19 +880,103 @@ func renamesOf(pkg *ssa.Package) map[*ssa.Function]string {
 		}
 	}
 	sort.Strings(missing)
+	// candidates: same owner (receiver type, possibly renamed, or package) and same parameter/result types
+	sameOwner := func(f *ssa.Function, name string) bool {
+		return pinnedOwnerPrefix(f) == ownerPrefix(name)
+	}
 	candOf := map[string][]*ssa.Function{}
-	claims := map[*ssa.Function]int{}
 	for _, name := range missing {
 		for _, f := range unknown {
-			if ownerPrefix(f.String()) == ownerPrefix(name) && SigString(f) == KnownSigs[name] {
+			if sameOwner(f, name) && SigString(f) == KnownSigs[name] {
 				candOf[name] = append(candOf[name], f)
-				claims[f]++
 			}
 		}
 	}
-	for _, name := range missing {
-		if c := candOf[name]; len(c) == 1 && claims[c[0]] == 1 {
-			m[c[0]] = name
+	// settle in rounds: a pair is settled when it is the only candidate both ways, or — among several candidates of one
+	// signature — when what the function calls (external functions, interface methods, settled module functions) resembles what the
+	// pinned function called more than any rival does
+	settledName := map[string]*ssa.Function{}
+	calleeNamer = func(f *ssa.Function) string {
+		if f.Parent() != nil {
+			return ""
+		}
+		if KnownFuncs[f.String()] {
+			return f.String()
+		}
+		if n, ok := m[f]; ok {
+			return n
+		}
+		return ""
+	}
+	defer func() { calleeNamer = nil }()
+	sim := func(f *ssa.Function, name string) float64 {
+		want := map[string]bool{}
+		for _, c := range strings.Split(KnownCallees[name], ",") {
+			if c != "" {
+				want[c] = true
+			}
+		}
+		got := CalleeNames(f)
+		inter, union := 0, len(want)
+		for _, g := range got {
+			if want[g] {
+				inter++
+			} else if !strings.HasPrefix(g, "module:") || true {
+				union++
+			}
+		}
+		if union == 0 {
+			return 1
+		}
+		return float64(inter) / float64(union)
+	}
+	for round := 0; round < 4; round++ {
+		progress := false
+		for _, name := range missing {
+			if settledName[name] != nil {
+				continue
+			}
+			var free []*ssa.Function
+			for _, f := range candOf[name] {
+				if _, taken := m[f]; !taken {
+					free = append(free, f)
+				}
+			}
+			if len(free) == 0 {
+				continue
+			}
+			// rivals: other missing names that could claim the same functions
+			best, bestSim, second := (*ssa.Function)(nil), -1.0, -1.0
+			for _, f := range free {
+				sc := sim(f, name)
+				if sc > bestSim {
+					best, second, bestSim = f, bestSim, sc
+				} else if sc > second {
+					second = sc
+				}
+			}
+			// the chosen function must not resemble another unsettled missing name at least as much
+			ok := len(free) == 1 || bestSim > second+0.15
+			if ok {
+				for _, other := range missing {
+					if other == name || settledName[other] != nil {
+						continue
+					}
+					for _, f := range candOf[other] {
+						if f == best && sim(best, other) >= bestSim && !(len(candOf[other]) > 1 && len(free) == 1) {
+							ok = false
+						}
+					}
+				}
+			}
+			if ok && best != nil {
+				m[best] = name
+				settledName[name] = best
+				progress = true
+			}
+		}
+		if !progress {
+			break
 		}
 	}
 	return m
@@ -941,7 +1028,7 @@ func FindPinned(pkg *ssa.Package, recv, name string) *ssa.Function {
 		r := ""
 		if f.Signature.Recv() != nil {
 			if n := NamedOf(f.Signature.Recv().Type()); n != nil {
-				r = n.Obj().Name()
+				r = PinnedTypeName(n.Obj().Pkg(), n.Obj().Name())
 			}
 		}
 		if r == recv {
@@ -949,4 +1036,234 @@ func FindPinned(pkg *ssa.Package, recv, name string) *ssa.Function {
 		}
 	}
 	return nil
+}
+
+// CalleeNames lists what fn and its function literals call, as stable names: standard-library and other external functions as
+// "pkg.Name" / "pkg.Type.Name", interface methods as "~Method"; functions of the module are left out (their names may change).
+var calleeNamer func(*ssa.Function) string
+
+func CalleeNames(fn *ssa.Function) []string {
+	set := map[string]bool{}
+	for _, f := range WithAnon(fn) {
+		AllInstrs(f, func(in ssa.Instruction) {
+			cc := CallOf(in)
+			if cc == nil {
+				return
+			}
+			if cc.IsInvoke() {
+				set["~"+cc.Method.Name()] = true
+				return
+			}
+			cal := StaticCallee(cc)
+			if cal == nil || cal.Pkg == nil {
+				if cal != nil && cal.Object() != nil && cal.Object().Pkg() != nil && !strings.HasPrefix(cal.Object().Pkg().Path(), "github.com/b2broker/simplefix-go") {
+					set[cal.Object().Pkg().Path()+"."+cal.Name()] = true
+				}
+				return
+			}
+			if strings.HasPrefix(cal.Pkg.Pkg.Path(), "github.com/b2broker/simplefix-go") {
+				// a function of the module: by the name the pinned tree knows it under, if that is settled
+				if calleeNamer != nil {
+					if n := calleeNamer(cal); n != "" {
+						set["module:"+n] = true
+					}
+				} else if cal.Parent() == nil {
+					set["module:"+cal.String()] = true
+				}
+				return
+			}
+			name := cal.Name()
+			if cal.Signature.Recv() != nil {
+				if n := NamedOf(cal.Signature.Recv().Type()); n != nil {
+					name = n.Obj().Name() + "." + name
+				}
+			}
+			set[cal.Pkg.Pkg.Path()+"."+name] = true
+		})
+	}
+	var out []string
+	for k := range set {
+		out = append(out, k)
+	}
+	sort.Strings(out)
+	return out
+}
+
+// pinnedOwnerPrefix is ownerPrefix(fn.String()) with a renamed receiver type replaced by its pinned name.
+func pinnedOwnerPrefix(fn *ssa.Function) string {
+	pre := ownerPrefix(fn.String())
+	if fn.Signature.Recv() == nil || fn.Pkg == nil {
+		return pre
+	}
+	n := NamedOf(fn.Signature.Recv().Type())
+	if n == nil {
+		return pre
+	}
+	if old := PinnedTypeName(fn.Pkg.Pkg, n.Obj().Name()); old != n.Obj().Name() {
+		return strings.Replace(pre, "."+n.Obj().Name()+")", "."+old+")", 1)
+	}
+	return pre
+}
+
+var typeRenameCache = map[*types.Package]map[string]string{}
+
+// PinnedTypeName: the name a struct type of the module has on the pinned tree — its own, or, when the pinned tree has no type of
+// this name, the name of the one pinned struct type that is missing from the package and has the same field types in the same order.
+func PinnedTypeName(pkg *types.Package, name string) string {
+	if pkg == nil {
+		return name
+	}
+	m, ok := typeRenameCache[pkg]
+	if !ok {
+		m = map[string]string{}
+		typeRenameCache[pkg] = m
+		fieldTypes := func(spec string) string {
+			var ts []string
+			for _, f := range strings.Split(spec, ";") {
+				if i := strings.Index(f, ":"); i >= 0 {
+					ts = append(ts, f[i+1:])
+				}
+			}
+			return strings.Join(ts, ";")
+		}
+		cur := map[string]string{} // current struct types → field type list
+		for _, n := range pkg.Scope().Names() {
+			tn, ok := pkg.Scope().Lookup(n).(*types.TypeName)
+			if !ok {
+				continue
+			}
+			st, ok := tn.Type().Underlying().(*types.Struct)
+			if !ok {
+				continue
+			}
+			var ts []string
+			for i := 0; i < st.NumFields(); i++ {
+				ts = append(ts, types.TypeString(st.Field(i).Type(), func(q *types.Package) string { return q.Path() }))
+			}
+			cur[n] = strings.Join(ts, ";")
+		}
+		var missing []string
+		for full, spec := range KnownFields {
+			if !strings.HasPrefix(full, pkg.Path()+".") || strings.Contains(full[len(pkg.Path())+1:], ".") {
+				continue
+			}
+			short := full[len(pkg.Path())+1:]
+			if _, present := cur[short]; !present {
+				missing = append(missing, short)
+			}
+			_ = spec
+		}
+		sort.Strings(missing)
+		for _, old := range missing {
+			want := fieldTypes(KnownFields[pkg.Path()+"."+old])
+			// a renamed type refers to itself under its new name: compare with the old name substituted
+			var cands []string
+			for n, ts := range cur {
+				if _, known := KnownFields[pkg.Path()+"."+n]; known {
+					continue
+				}
+				if strings.ReplaceAll(ts, pkg.Path()+"."+n, pkg.Path()+"."+old) == want {
+					cands = append(cands, n)
+				}
+			}
+			if len(cands) == 1 {
+				m[cands[0]] = old
+			}
+		}
+	}
+	if old, ok := m[name]; ok {
+		return old
+	}
+	return name
+}
+
+// --- field rename tolerance -------------------------------------------------------------------------------------------
+
+var fieldRenameCache = map[*types.Package]map[*types.Var]string{}
+
+// FieldName is the name of a struct field in the rules' vocabulary: its own, or — when the pinned struct has no field of this
+// name — the name of the one pinned field of that struct that is missing now and has the same type (unique both ways).
+func FieldName(f *types.Var) string {
+	if f == nil {
+		return ""
+	}
+	pkg := f.Pkg()
+	if pkg == nil || !strings.HasPrefix(pkg.Path(), "github.com/b2broker/simplefix-go") {
+		return f.Name()
+	}
+	m, ok := fieldRenameCache[pkg]
+	if !ok {
+		m = map[*types.Var]string{}
+		fieldRenameCache[pkg] = m
+		q := func(p *types.Package) string { return p.Path() }
+		for _, n := range pkg.Scope().Names() {
+			tn, ok := pkg.Scope().Lookup(n).(*types.TypeName)
+			if !ok {
+				continue
+			}
+			st, ok := tn.Type().Underlying().(*types.Struct)
+			if !ok {
+				continue
+			}
+			old := PinnedTypeName(pkg, n)
+			spec, known := KnownFields[pkg.Path()+"."+old]
+			if !known {
+				continue
+			}
+			pinned := map[string]string{} // name → type
+			var order []string
+			for _, fs := range strings.Split(spec, ";") {
+				if i := strings.Index(fs, ":"); i >= 0 {
+					pinned[fs[:i]] = fs[i+1:]
+					order = append(order, fs[:i])
+				}
+			}
+			present := map[string]bool{}
+			var unknown []*types.Var
+			for i := 0; i < st.NumFields(); i++ {
+				fv := st.Field(i)
+				present[fv.Name()] = true
+				if _, ok := pinned[fv.Name()]; !ok {
+					unknown = append(unknown, fv)
+				}
+			}
+			for _, pn := range order {
+				if present[pn] {
+					continue
+				}
+				var cands []*types.Var
+				for _, u := range unknown {
+					ts := strings.ReplaceAll(types.TypeString(u.Type(), q), pkg.Path()+"."+n, pkg.Path()+"."+old)
+					if ts == pinned[pn] {
+						cands = append(cands, u)
+					}
+				}
+				// unique both ways: no other missing pinned field of that type
+				rivals := 0
+				for _, other := range order {
+					if !present[other] && pinned[other] == pinned[pn] {
+						rivals++
+					}
+				}
+				if len(cands) == 1 && rivals == 1 {
+					m[cands[0]] = pn
+				} else if len(cands) == rivals && rivals > 1 {
+					// several fields of one type renamed together: keep their relative order
+					idx := 0
+					for _, other := range order {
+						if !present[other] && pinned[other] == pinned[pn] {
+							if other == pn && idx < len(cands) {
+								m[cands[idx]] = pn
+							}
+							idx++
+						}
+					}
+				}
+			}
+		}
+	}
+	if old, ok := m[f]; ok {
+		return old
+	}
+	return f.Name()
 }
